@@ -8,7 +8,7 @@ from props.base import corpus_for  # noqa: F401
 from props import c01, c03
 
 ID = 'C06'
-LEAN_MODULES = ['PybtexModel.Props.C06']
+LEAN_MODULES = ['PybtexModel.Props.C06', 'PybtexModel.Props.C06x']
 THEOREMS = {
     'C06_aux_equiv': "[model wiring] the model DEFINES makeBibliography as Aux.parse followed by formatFromFiles on the .aux file's style, data names and citations: 'aux run = explicit call byte for byte' holds by construction (proved content: a successful parse has style and data); that the CODE does so is carried by the correspondence check",
     'C06_overrides': "[model wiring] part 1 (style= / bib_format= replace \\bibstyle / suffix+reader) unfolds makeBibliography - carried by the correspondence check over all override combinations; parts 2-4: with a reader database the model's READ stores it and never looks at .bib names or texts - by construction: the reader's own file access is NOT modelled",
@@ -48,6 +48,22 @@ THEOREMS = {
     'C06_frame_swap_alt': "reordering the entry list a bib_format reader delivers: two neighbours change places - if their keys differ up to case, neither is the crossref target of the other (parent-after-child proviso) nor refers to '*', at most one repeats an earlier key and no '*' is cited, the whole run (.bbl, reports, printed output, or the error) is the same for both orders",
     'C06_frame_swap_alt_nonvacuous': 'non-vacuity: the example list noise a b / noise b a satisfies the conditions; the run gives a, b',
     'C06_item_starts_with_bibitem_alpha': "the same for alpha.bst's output.bibitem (newline$ \"\\bibitem[\" write$ label write$ \"]{\" write$ cite$ write$ \"}\" write$ newline$): the lines appended for entry k start with the pending line and \\bibitem[L]{k}, L the text of k's label variable",
+    'C06_splitext_spec': "os.path.splitext (model of genericpath._splitext with os.sep / os.extsep of the running interpreter), for every path: root + ext = path; ext is empty, or '.' followed by characters other than '.' and '/', and then the last component of root has a character other than '.' (leading dots are never an extension)",
+    'C06_splitext_spec_nonvacuous': 'non-vacuity: /D.d/my.doc.aux, a name without extension, a hidden file, ..a.b, x.',
+    'C06_splitext_append': "complete converse for an appended extension: b + '.' + x (x without '.' and '/') splits into (b, '.x') exactly when the last component of b has a character other than '.', otherwise nothing is split off - no further hypothesis",
+    'C06_splitext_append_nonvacuous': 'non-vacuity: both branches (/D/doc; a directory name with a trailing slash; ..)',
+    'C06_cli_aux_name': "the command line's .aux name (PybtexCommandLine.run), HYPOTHESIS: the last component of b has a character other than '.': splitext(b.aux) = (b, .aux); b.aux is handed on unchanged; b becomes b.aux unless its own extension is .aux; the rule is idempotent - pybtex b and pybtex b.aux name the same file",
+    'C06_cli_aux_name_nonvacuous': 'non-vacuity: /D.d/doc, /D.d/doc.aux, /D/doc.tex',
+    'C06_cli_aux_name_neg': "the hypothesis is needed: for the empty name and for a name ending in '/' the rule appends .aux again when applied twice (.aux -> .aux.aux)",
+    'C06_explicit_output': '[model wiring] output side of format_from_files: no output_filename = the text is returned; name + add_output_suffix = the SAME text written to name.bbl, nothing returned; add_output_suffix without a name = TypeError raised after the run (an error of the run comes first); empty name without suffix = no name. Proved content: same text in both, name.bbl never empty',
+    'C06_output_beside_aux': "make_bibliography never returns the text and never fails on the output name: it fails exactly as the run fails and on success writes the run's text to splitext(aux)[0] + '.bbl'; for an .aux name b.aux (last component of b not only dots) that is b.bbl",
+    'C06_aux_equiv_output': '[model wiring] .aux run = explicit call INCLUDING the output: HYPOTHESIS the .aux file parses; then make_bibliography is format_from_files on the \\bibdata names + reader suffix, the (overridden) style, the citations, output_filename = splitext(aux)[0], add_output_suffix = True, and the text it writes is the text the same explicit call returns when given no output name (unfolding + parse_ok_style_data); that the CODE does so: correspondence check',
+    'C06_cli_run': "PybtexCommandLine.run's decision: unknown style language = usage error; BibTeX language with a Pythonic-engine option set = usage error naming the first one in dict order; BibTeX language and none set = pybtex.bibtex.make_bibliography on cliAuxName(filename) with every unset encoding option replaced by --encoding",
+    'C06_cli_run_nonvacuous': 'non-vacuity: four concrete option sets (encoding defaults incl. an empty string, two Pythonic options, language perl, language python)',
+    'C06_cli_same_run': "HYPOTHESES: last component of b not only dots, extension of b is not .aux, BibTeX language, no Pythonic option: the command line run on b and on b.aux are both make_bibliography('b.aux') with its output (same error or same text written to b.bbl)",
+    'C06_aux_equiv_in_place': "composition with C20's specification of the .aux reader: HYPOTHESES closedDepth (every \\@input file exists, nesting depth d <= fuel) and no fatal problem; then make_bibliography is format_from_files on the first \\bibdata names + suffix, the first \\bibstyle (or the override) and the citations of Spec.events = the \\citation keys in reading order with every \\@input file unfolded IN PLACE, written to splitext(aux)[0] + .bbl, the reader's reports riding along",
+    'C06_aux_equiv_in_place_nonvacuous': 'non-vacuity: main.aux (alpha, \\@input ch1, omega), ch1.aux (beta, \\@input ch1a, delta), ch1a.aux (gamma) is closed at depth 3, not fatal, and denotes alpha beta gamma delta omega, style unsrt, data refs',
+    'C06_model_literals': "the literals Model/Engine.lean hard-codes equal the ones regenerated from /repo on this run (Gen/EngineConsts.lean): default reader suffix .bib, style + extsep + 'bst', the .bib names, Interpreter's command_* method names = BstParser.COMMANDS lower-cased, the command line's default min_crossrefs / style language = the API's (finite facts by decide; two list identities)",
     'C06_item_starts_with_bibitem_alpha_nonvacuous': 'non-vacuity: a style with that output.bibitem and labels computed in an earlier ITERATE pass produces \\bibitem[Z]{a} \\bibitem[Y]{b}',
 }
 RULE = ('databases drawn from a pool of realistic entries (all standard types, cross-references, braces, special characters, a group of entries '
@@ -58,8 +74,16 @@ RULE = ('databases drawn from a pool of realistic entries (all standard types, c
         'error before READ, a syntax error behind executed commands), every entry point (make_bibliography through a generated .aux, the '
         'command line, format_from_files / _file / _string / _strings, the default citations argument, Interpreter.run with an unknown '
         'command), every combination of style= / bib_format= override (YAML copy beside a decoy or absent .bib file), output_encoding / '
-        'bib_encoding; non-trivial = at least two cited entries; distinct by case JSON')
+        'bib_encoding; .aux files that \\@input other .aux files (depth 1-2, citations in front of, inside and behind the \\@input line), '
+        '.aux files with a second or without \\bibstyle / \\bibdata, fifteen names of the .aux file (several dots, hidden files, dotted '
+        'directories, no extension) through make_bibliography and the command line with the written file located by listing the '
+        "directory; function level: os.path.splitext and the command line's .aux name on every string over {a . /} up to length 5 "
+        '(thorough 6) + random strings, the output side of format_from_files (7 names x add_output_suffix), PybtexCommandLine.run '
+        'with a recording engine (style languages x encoding options x Pythonic options); non-trivial = at least two cited entries '
+        '(splitext: a non-empty extension); distinct by case JSON')
 TRUSTED = ['the standard .bst files are inputs (not modelled); the YAML reader is used as is for the bib_format override',
+           'optparse (option parsing itself; PybtexCommandLine.run is driven directly with engine.make_bibliography replaced by a recorder)',
+           'the posix path model (os.sep, os.extsep read from the running interpreter; os.altsep must be None)',
            'real temp files under a private directory outside /repo and /verif']
 ASSUMPTIONS = ['ASCII field values except in the note field (lower-case Latin-1 letters); parents occur after the children that reference '
                "them (C05 ordering proviso); 'the file is reordered' is checked for citation lists without '*' (with '*' the file order IS "
@@ -118,6 +142,12 @@ MINI = {
     'mini_raise': 'ENTRY {}{}{}\nFUNCTION {bad} {pop$}\nEXECUTE {bad}\nREAD\n',
     # a syntax error behind executed commands: the script is parsed command by command while it runs
     'mini_syntax': 'ENTRY {title}{}{}\n' + _ITEM + 'READ\nITERATE {out}\nBOGUS {x}\n',
+    # entry integers and entry strings (ENTRY's second and third group), set in one pass and read in the next
+    'mini_entryvars': ('ENTRY {title}{cnt}{lab}\nINTEGERS {n}\nFUNCTION {num} {n #1 + \'n := n \'cnt := "L" n int.to.str$ * \'lab :=}\n'
+                       'FUNCTION {out} {"\\bibitem{" cite$ * "}" * write$ newline$ lab write$ cnt int.to.str$ write$ newline$}\n'
+                       'READ\nREVERSE {num}\nITERATE {out}\n'),
+    # a name declared twice: add_variable raises before READ
+    'mini_redeclare': 'ENTRY {title}{}{}\nFUNCTION {title} {}\nREAD\n',
     'mini_raise_syntax': 'ENTRY {}{}{}\nFUNCTION {bad} {pop$}\nEXECUTE {bad}\nBOGUS {x}\n',
 }
 
@@ -193,6 +223,7 @@ def decoy_text(text):
 
 
 def _write(path, text, encoding='utf-8'):
+    os.makedirs(os.path.dirname(path), exist_ok=True)
     with open(path, 'w', encoding=encoding, newline='') as f:
         f.write(text)
 
@@ -226,11 +257,72 @@ def eff_style(case):
     return case.get('style_override') or case['style']
 
 
+def flatten_tree(tree):
+    """the citations of an .aux tree (a list whose items are keys or, for an \\@input file, such lists) in the order a reader that
+    processes \\@input IN PLACE meets them"""
+    out = []
+    for item in tree:
+        out.extend(flatten_tree(item) if isinstance(item, list) else [item])
+    return out
+
+
+def _style_data_lines(case, d):
+    """the \\bibstyle / \\bibdata lines of the top file; case['aux_extra']: dup_style / dup_data (a second command: reported, ignored),
+    no_style / no_data (fatal)"""
+    extra = case.get('aux_extra') or ''
+    out = []
+    if extra != 'no_style':
+        out.append('\\bibstyle{%s}' % (d + '/' + case['style']))
+    if extra == 'dup_style':
+        out.append('\\bibstyle{%s}' % (d + '/nosuchstyle'))
+    if extra != 'no_data':
+        out.append('\\bibdata{%s}' % ','.join(d + '/' + n for n in BIB_NAMES[:len(bib_texts(case))]))
+    if extra == 'dup_data':
+        out.append('\\bibdata{%s}' % (d + '/nosuchdata'))
+    return out
+
+
+def aux_file_set(case, d):
+    """all .aux files of the case as (path, lines), the top file first; nested files are named in1.aux, in2.aux, ... in the order
+    of their \\@input lines (depth first)"""
+    if not case.get('aux_tree'):
+        return [(d + '/' + aux_name(case), aux_lines(case, d))]
+    files, counter = [], [0]
+
+    def build(tree):
+        lines = []
+        for item in tree:
+            if isinstance(item, list):
+                counter[0] += 1
+                name = '%s/in%d.aux' % (d, counter[0])
+                slot = len(files)
+                files.append(None)
+                files[slot] = (name, ['\\relax '] + build(item))
+                lines.append('\\@input{%s}' % name)
+            else:
+                lines.append('\\citation{%s}' % item)
+        return lines
+    main = ['\\relax '] + build(case['aux_tree']) + _style_data_lines(case, d)
+    return [(d + '/' + aux_name(case), main)] + files
+
+
+def aux_name(case):
+    """the name of the top .aux file relative to the working directory (family paths: other names than doc.aux)"""
+    return case.get('aux_name') or 'doc.aux'
+
+
+def _listing(d):
+    out = set()
+    for root, _dirs, fs in os.walk(d):
+        for f in fs:
+            out.add(os.path.relpath(os.path.join(root, f), d))
+    return out
+
+
 def aux_lines(case, d):
-    aux = ['\\relax '] + _citation_lines(case)
-    aux.append('\\bibstyle{%s}' % (d + '/' + case['style']))
-    aux.append('\\bibdata{%s}' % ','.join(d + '/' + n for n in BIB_NAMES[:len(bib_texts(case))]))
-    return aux
+    if case.get('aux_tree'):
+        return aux_file_set(case, d)[0][1]
+    return ['\\relax '] + _citation_lines(case) + _style_data_lines(case, d)
 
 
 def yaml_text(case):
@@ -255,7 +347,8 @@ def setup_files(case, d):
     elif not case.get('missing_bib'):
         for n, t in zip(BIB_NAMES, texts):
             _write(os.path.join(d, n + '.bib'), t, enc)
-    _write(os.path.join(d, 'doc.aux'), '\n'.join(aux_lines(case, d)) + '\n', enc)
+    for path, lines in aux_file_set(case, d):
+        _write(path, '\n'.join(lines) + '\n', enc)
 
 
 def _yaml_parser():
@@ -277,16 +370,21 @@ def run_aux(case, d):
     raw = {}
 
     def go():
-        bbl = os.path.join(d, 'doc.bbl')
-        if os.path.exists(bbl):
-            os.unlink(bbl)
-        make_bibliography(os.path.join(d, 'doc.aux'), **kw)
-        with open(bbl, 'rb') as f:
+        before = _listing(d)
+        ret = make_bibliography(d + '/' + aux_name(case), **kw)
+        new = sorted(_listing(d) - before)
+        raw['new'], raw['ret'] = new, ret
+        if len(new) != 1:
+            raise RuntimeError('make_bibliography wrote %r' % (new,))
+        with open(os.path.join(d, new[0]), 'rb') as f:
             raw['bytes'] = f.read()
+        os.unlink(os.path.join(d, new[0]))
         return raw['bytes'].decode(enc or 'utf-8')
     r = _run(go)
     if 'bytes' in raw and 'error' not in r:
         r['hex'] = raw['bytes'].hex()
+        r['written'] = ['file', '/D/' + raw['new'][0]]
+        r['returned'] = raw['ret']
     return r
 
 
@@ -297,14 +395,12 @@ def run_cli(case, d):
     import pybtex.io
     from pybtex import errors
     from pybtex.__main__ import main
-    argv = ['pybtex', os.path.join(d, 'doc.aux'), '--min-crossrefs', str(case['min_crossrefs'])]
+    argv = ['pybtex', d + '/' + (case['cli_name'] if case.get('cli_name') is not None else aux_name(case)), '--min-crossrefs', str(case['min_crossrefs'])]
     if case.get('style_override'):
         argv += ['--style', os.path.join(d, case['style_override'])]
     if case.get('yaml'):
         argv += ['-f', 'yaml']
-    bbl = os.path.join(d, 'doc.bbl')
-    if os.path.exists(bbl):
-        os.unlink(bbl)
+    before = _listing(d)
     old = (sys.argv, errors.strict, errors.error_code, pybtex.io.stderr, pybtex.io.stdout, sys.stderr)
     sys.argv = argv
     pybtex.io.stderr = sys.stderr = _io.StringIO()
@@ -317,10 +413,13 @@ def run_cli(case, d):
             code = e.code
         except Exception as e:  # noqa
             return {'error': ['INTERNAL'], 'detail': '%s: %s' % (type(e).__name__, e)}
-        if not os.path.exists(bbl):
-            return {'error': ['no-output'], 'code': code}
-        with open(bbl, encoding='utf-8', newline='') as f:
-            return {'bbl': f.read(), 'code': code}
+        new = sorted(_listing(d) - before)
+        if len(new) != 1:
+            return {'error': ['no-output'], 'code': code, 'new': new}
+        with open(os.path.join(d, new[0]), encoding='utf-8', newline='') as f:
+            text = f.read()
+        os.unlink(os.path.join(d, new[0]))
+        return {'bbl': text, 'code': code, 'written': ['file', '/D/' + new[0]]}
     finally:
         sys.argv, errors.strict, errors.error_code, pybtex.io.stderr, pybtex.io.stdout, sys.stderr = old
 
@@ -351,17 +450,18 @@ def run_files(case, d, keys=None, noise=None, yaml=None, single=False, how='file
         paths = [os.path.join(d, 'plain_copy.bib')]
     else:
         paths = [os.path.join(d, n + '.bib') for n in BIB_NAMES[:len(bib_texts(case))]]
+    import pybtex.bibtex as _mod     # the module-level convenience functions named in observe_at
     if how == 'file':
-        return _run(lambda: eng.format_from_file(paths[0], style=style, **kw))
+        return _run(lambda: _mod.format_from_file(paths[0], style=style, **kw))
     if how == 'string':
         texts = [yaml_text(case)] if yaml else bib_texts(case)
         kw.pop('bib_encoding', None)
         if len(texts) == 1:
-            return _run(lambda: eng.format_from_string(texts[0], style=style, **kw))
-        return _run(lambda: eng.format_from_strings(texts, style=style, **kw))
+            return _run(lambda: _mod.format_from_string(texts[0], style=style, **kw))
+        return _run(lambda: _mod.format_from_strings(texts, style=style, **kw))
     if how == 'default':
         del kw['citations']
-        return _run(lambda: eng.format_from_files(paths, style=style, **kw))
+        return _run(lambda: _mod.format_from_files(paths, style=style, **kw))
     if how == 'bytes':
         raw = {}
 
@@ -440,6 +540,8 @@ def impl(case):
 
 
 def _impl(case):
+    if case['op'] != 'makebib':
+        return _fn_impl(case)
     d = os.path.join(_tmpdir(), 'w')
     shutil.rmtree(d, True)
     os.makedirs(d)
@@ -475,6 +577,8 @@ def _impl(case):
 
 
 def to_request(case):
+    if case['op'] != 'makebib':
+        return _fn_request(case)
     d = '/D'
     texts = [[d + '/' + case['style'] + '.bst', style_text(case['style'])]]
     if case.get('style_override'):
@@ -486,7 +590,7 @@ def to_request(case):
     elif not case.get('missing_bib'):
         for n, t in zip(BIB_NAMES, bt):
             texts.append([d + '/' + n + '.bib', t])
-    req = {'op': 'makebib', 'aux_files': [[d + '/doc.aux', aux_lines(case, d)]], 'texts': texts,
+    req = {'op': 'makebib', 'aux_files': [[pth, lines] for pth, lines in aux_file_set(case, d)], 'texts': texts,
            'min_crossrefs': case['min_crossrefs'], 'alt': None}
     if case.get('yaml'):
         from pybtex import errors
@@ -497,7 +601,9 @@ def to_request(case):
         req['alt'] = {'entries': entries, 'preamble': preamble}
     view = case.get('view') or 'aux'
     if view == 'aux':
-        req.update({'mode': 'aux', 'top': d + '/doc.aux',
+        if case.get('cli_name') is not None:
+            req['cli_name'] = d + '/' + case['cli_name']
+        req.update({'mode': 'aux', 'top': d + '/' + aux_name(case),
                     'style_override': (d + '/' + case['style_override']) if case.get('style_override') else None,
                     'bib_format': {'suffix': '.yaml'} if case.get('yaml') else None})
     else:
@@ -519,14 +625,26 @@ def _norm_paths(s, d):
 def compare_view(io):
     """the run the model is compared with: the .aux entry point, or (case['view']) the explicit call / format_from_string(s) /
     Interpreter.run with an injected unknown command"""
+    if 'fn' in io:
+        return io['fn']
     a = io[{'aux': 'aux', 'files': 'files', 'string': 'string', 'inject': 'inject'}[io.get('view', 'aux')]]
     if 'error' in a:
         return {'error': a['error']}
-    return {'bbl': a['bbl'], 'reports': [[c, _norm_paths(m, io['dir'])] for c, m in a['reports']], 'aux_errors': a['aux_errors']}
+    out = {'bbl': a['bbl'], 'reports': [[c, _norm_paths(m, io['dir'])] for c, m in a['reports']], 'aux_errors': a['aux_errors']}
+    if io.get('view') == 'inject':
+        out['printed'] = a.get('stdout', '')
+    if io.get('view', 'aux') == 'aux':
+        # where make_bibliography (and the command line, when it ran) put the text
+        out['written'] = a.get('written')
+        if io.get('cli') is not None and 'written' in io['cli']:
+            out['cli_written'] = io['cli']['written']
+    return out
 
 
 def model_out(case, reply):
     o = reply['out']
+    if case['op'] != 'makebib':
+        return _fn_model_out(case, o)
     if 'error' in o:
         e = o['error']
         if e[0] == 'RUN':
@@ -534,7 +652,170 @@ def model_out(case, reply):
         if e[0] == 'AUX':
             return {'error': ['AuxDataError' if (e[1] or {}).get('kind') not in ('open',) else 'PybtexError']}
         return {'error': [e[0]]}
-    return {'bbl': o['bbl'], 'reports': o['reports'], 'aux_errors': o['aux_errors']}
+    out = {'bbl': o['bbl'], 'reports': o['reports'], 'aux_errors': o['aux_errors']}
+    if case.get('view') == 'inject':
+        out['printed'] = ''.join(x + '\n' for x in o.get('printed', []))
+    if (case.get('view') or 'aux') == 'aux':
+        out['written'] = o.get('written')
+        if case.get('cli') and 'cli_written' in o:
+            out['cli_written'] = o['cli_written']
+        elif case.get('cli'):
+            out['cli_written'] = o.get('written')
+    return out
+
+
+# ---- function-level families: os.path.splitext, the output side of format_from_files, PybtexCommandLine.run ----
+
+PYTHONIC = ['output_backend', 'label_style', 'name_style', 'sorting_style', 'abbreviate_names']   # = Gen.cliNotSupportedOptions (checked below)
+USAGE_TEXT = {'unknown-language': 'unknown style language %s',
+              'not-supported': '%s are only supported by the Pythonic style engine (-l python)'}
+
+
+class _Usage(Exception):
+    pass
+
+
+def _fn_impl(case):
+    op = case['op']
+    if op == 'c06_splitext':
+        root, ext = os.path.splitext(case['p'])
+        return {'fn': {'root': root, 'ext': ext, 'cli': _real_cli_call(case['p'], 'bibtex', None, {})}}
+    if op == 'c06_target':
+        return {'fn': _real_target(case)}
+    return {'fn': {'cli': _real_cli_call(case['filename'], case['style_language'], case['encoding'],
+                                         dict(case['options']))}}
+
+
+_PYOK = []
+
+
+def _pythonic_ok():
+    if not _PYOK:
+        from tablegen.c06 import cli_literals
+        try:
+            _PYOK.append([k for k, _ in cli_literals()['not_supported']] == PYTHONIC)
+        except Exception:  # noqa: the table generator reports it
+            _PYOK.append(True)
+    return _PYOK[0]
+
+
+def _real_cli_call(filename, lang, encoding, given):
+    """the real PybtexCommandLine.run with engine.make_bibliography replaced by a recorder and optparse's error() by an exception"""
+    import pybtex
+    import pybtex.bibtex
+    from pybtex.__main__ import main
+    if not _pythonic_ok():
+        return {'error': 'the options of not_supported_by_bibtex changed'}
+    options = {k: None for k in PYTHONIC + ['bib_encoding', 'bst_encoding', 'output_encoding']}
+    options.update(given)
+    seen = []
+    old = (pybtex.bibtex.make_bibliography, pybtex.make_bibliography if hasattr(pybtex, 'make_bibliography') else None, main.opt_parser.error)
+
+    def usage(msg):
+        raise _Usage(msg)
+    pybtex.bibtex.make_bibliography = lambda fn, **kw: seen.append(['pybtex.bibtex', fn, kw.get('bib_encoding'), kw.get('bst_encoding'), kw.get('output_encoding')])
+    pybtex.make_bibliography = lambda fn, **kw: seen.append(['pybtex', fn, kw.get('bib_encoding'), kw.get('bst_encoding'), kw.get('output_encoding')])
+    main.opt_parser.error = usage
+    try:
+        main.run(filename, lang, encoding, **options)
+        return {'call': seen[0]} if len(seen) == 1 else {'error': 'make_bibliography called %d times' % len(seen)}
+    except _Usage as e:
+        return {'usage': str(e)}
+    except Exception as e:  # noqa
+        return {'error': 'INTERNAL:%s: %s' % (type(e).__name__, e)}
+    finally:
+        pybtex.bibtex.make_bibliography = old[0]
+        if old[1] is None:
+            del pybtex.make_bibliography
+        else:
+            pybtex.make_bibliography = old[1]
+        main.opt_parser.error = old[2]
+
+
+def _real_target(case):
+    """format_from_files(..., output_filename=, add_output_suffix=) of the real engine on a two-entry database: returned or written where?"""
+    from pybtex.bibtex import BibTeXEngine
+    d = os.path.join(_tmpdir(), 't')
+    shutil.rmtree(d, True)
+    os.makedirs(d)
+    cwd = os.getcwd()
+    try:
+        os.chdir(d)
+        _write(os.path.join(d, 'in', 'mini_keys.bst'), MINI['mini_keys'])
+        _write(os.path.join(d, 'in', 'refs.bib'), POOL['knuth84'] + '\n' + POOL['art1'] + '\n')
+        if case.get('subdir'):
+            os.makedirs(os.path.join(d, case['subdir']), exist_ok=True)
+        before = _listing(d)
+        ref = _run(lambda: BibTeXEngine().format_from_files([os.path.join(d, 'in', 'refs.bib')], style=os.path.join(d, 'in', case.get('style') or 'mini_keys'),
+                                                             citations=['art1', 'knuth84']))
+        box = {}
+
+        def go():
+            box['ret'] = BibTeXEngine().format_from_files([os.path.join(d, 'in', 'refs.bib')], style=os.path.join(d, 'in', case.get('style') or 'mini_keys'),
+                                                        citations=['art1', 'knuth84'], output_filename=case['output_filename'],
+                                                        add_output_suffix=case['add_output_suffix'])
+            return box['ret']
+        r = _run(go)
+        if 'error' in r:
+            if r['error'] == ['INTERNAL'] and (r.get('detail') or '').startswith('TypeError'):
+                return {'target': ['TypeError'], 'same_text': True}
+            return {'target': ['error', r['error'], r.get('detail')]}
+        new = sorted(_listing(d) - before)
+        if box['ret'] is not None:
+            return {'target': ['returned'] if not new else ['returned+file', new], 'same_text': box['ret'] == ref.get('bbl')}
+        if len(new) != 1:
+            return {'target': ['nothing', new]}
+        with open(os.path.join(d, new[0]), encoding='utf-8', newline='') as f:
+            text = f.read()
+        return {'target': ['file', new[0]], 'same_text': text == ref.get('bbl')}
+    finally:
+        os.chdir(cwd)
+        shutil.rmtree(d, True)
+
+
+def _fn_model_out(case, o):
+    op = case['op']
+
+    def cli(c):
+        if 'usage' in c:
+            return {'usage': USAGE_TEXT[c['usage'][0]] % c['usage'][1]}
+        return {'call': c['call']}
+    if op == 'c06_splitext':
+        return {'root': o['root'], 'ext': o['ext'], 'cli': {'call': ['pybtex.bibtex', o['cli_aux'], None, None, None]}}
+    if op == 'c06_target':
+        return {'target': o['target'], 'same_text': True} if o['target'][0] != 'error' else {'target': o['target']}
+    return {'cli': cli(o)}
+
+
+def _fn_request(case):
+    if case['op'] == 'c06_clirun':
+        opts = dict(case['options'])
+        return {'op': 'c06_clirun', 'filename': case['filename'], 'style_language': case['style_language'], 'encoding': case['encoding'],
+                'bib_encoding': opts.get('bib_encoding'), 'bst_encoding': opts.get('bst_encoding'), 'output_encoding': opts.get('output_encoding'),
+                'pythonic': [bool(opts.get(k)) for k in PYTHONIC]}
+    return dict(case)
+
+
+def _fn_oracle(case, io, reply):
+    """property-level facts about the file names, on the implementation's values (spec values from the model)"""
+    fails = []
+    f, o = io['fn'], reply['out']
+    if case['op'] == 'c06_splitext':
+        p = case['p']
+        if f['root'] + f['ext'] != p:
+            fails.append('splitext: root + ext = %r is not the path %r' % (f['root'] + f['ext'], p))
+        if f['ext'] and (f['ext'][0] != '.' or '.' in f['ext'][1:] or '/' in f['ext']):
+            fails.append('splitext: extension %r of %r' % (f['ext'], p))
+        # pybtex b and pybtex b.aux are the same run (C06_cli_aux_name), when the model says the hypothesis holds
+        if o.get('has_non_dot') and 'call' in f['cli'] and not p.endswith('.aux'):
+            other = _real_cli_call(p + '.aux', 'bibtex', None, {})
+            if other != f['cli']:
+                fails.append('aux_equiv/cli: pybtex %r opens %r, pybtex %r opens %r' % (p, f['cli'], p + '.aux', other))
+    elif case['op'] == 'c06_target':
+        if f.get('same_text') is False:
+            fails.append('aux_equiv/output: the text delivered with output_filename=%r add_output_suffix=%r differs from the returned text of the same call'
+                         % (case['output_filename'], case['add_output_suffix']))
+    return fails
 
 
 def bibitem_keys(bbl):
@@ -579,6 +860,8 @@ def expected_order(resolved, sorts):
 
 
 def oracle(case, io, reply):
+    if case['op'] != 'makebib':
+        return _fn_oracle(case, io, reply)
     fails = []
     a, f = io['aux'], io['files']
     for name in ('aux', 'files', 'variant', 'bibtex_db', 'single', 'file', 'string', 'default', 'inject'):
@@ -592,6 +875,11 @@ def oracle(case, io, reply):
         if r is not None and (r.get('error'), r.get('bbl')) != (f.get('error'), f.get('bbl')):
             fails.append('entry_points: %s gives %r, format_from_files on the same database %r' % (
                 what, (r.get('bbl') or str(r.get('error')))[:200], (f.get('bbl') or str(f.get('error')))[:200]))
+    if case.get('aux_extra') in ('no_style', 'no_data'):
+        # no equivalent explicit call exists: the run must stop with the .aux reader's error
+        if a.get('error') != ['AuxDataError']:
+            fails.append('aux_equiv: an .aux file without \\bibstyle / \\bibdata gave %r instead of an AuxDataError' % (a.get('error') or 'output',))
+        return fails
     if 'error' in a or 'error' in f:
         if a.get('error') != f.get('error'):
             fails.append('aux_equiv: make_bibliography gave %r, the explicit call %r' % (a.get('error') or 'output', f.get('error') or 'output'))
@@ -601,14 +889,26 @@ def oracle(case, io, reply):
         fails.append('aux_equiv%s: driving the engine through the .aux file differs from the equivalent explicit call%s: %r vs %r' % (
             '/override' if which else '', ' (bytes written with output_encoding=%s)' % case['enc'] if case.get('enc') and a['bbl'] == f['bbl'] else '',
             a['bbl'][:200], f['bbl'][:200]))
+    an = aux_name(case)
+    if an.endswith('.aux') and a.get('written') is not None:
+        b = an[:-len('.aux')]
+        if b.rsplit('/', 1)[-1].strip('.'):
+            # C06_output_beside_aux, second part: the .bbl file of b.aux is b.bbl (last component of b not made of dots only)
+            if a['written'] != ['file', '/D/' + b + '.bbl']:
+                fails.append('aux_equiv/output: make_bibliography(%r) wrote %r; the output of the run on b.aux belongs in b.bbl = %r' % (
+                    an, a['written'], b + '.bbl'))
+    if a.get('returned') is not None:
+        fails.append('aux_equiv/output: make_bibliography returned %r instead of writing only' % (a['returned'][:80],))
     c = io.get('cli')
     if c is not None:
+        if 'error' not in c and c.get('written') != a.get('written') and case.get('cli_name') is None:
+            fails.append('aux_equiv/cli: the command line wrote %r, make_bibliography on the same .aux file %r' % (c.get('written'), a.get('written')))
         if 'error' in c:
             fails.append('aux_equiv/cli: the command line run gave %r (exit %r), make_bibliography an output' % (c['error'], c.get('code')))
         elif c['bbl'] != a['bbl']:
             fails.append('aux_equiv/cli: the command line run differs from make_bibliography: %r vs %r' % (c['bbl'][:200], a['bbl'][:200]))
     keys = bibitem_keys(f['bbl'])
-    emits_items = eff_style(case) not in ('mini_noread', 'mini_raise', 'mini_raise_syntax')
+    emits_items = eff_style(case) not in ('mini_noread', 'mini_raise', 'mini_raise_syntax', 'mini_redeclare')
     if emits_items:
         low = [k.lower() for k in keys]
         if len(set(low)) != len(low):
@@ -641,6 +941,16 @@ def oracle(case, io, reply):
 
 
 def buckets(case, io):
+    if case['op'] != 'makebib':
+        b = ['fn:' + case['op']]
+        f = io['fn']
+        if case['op'] == 'c06_splitext':
+            b.append('ext' if f['ext'] else 'no-ext')
+        elif case['op'] == 'c06_target':
+            b.append('target:' + str(f['target'][0]))
+        else:
+            b.append('usage' if 'usage' in f['cli'] else 'call')
+        return b
     b = [case['style']]
     if case.get('style_override'):
         b.append('style-override')
@@ -658,12 +968,18 @@ def buckets(case, io):
         b.append('enc:' + case['enc'])
     if case.get('family'):
         b.append('family:' + case['family'])
+    if case.get('aux_name') or case.get('cli_name') is not None:
+        b.append('aux-name')
     if 'error' in io['aux']:
         b.append('error:' + io['aux']['error'][0])
     return b
 
 
 def nontrivial(case, io):
+    if case['op'] == 'c06_splitext':
+        return bool(io['fn']['ext'])
+    if case['op'] != 'makebib':
+        return True
     return len(io.get('resolved', [])) >= 2
 
 
@@ -813,17 +1129,56 @@ def gen_ties(rng, styles):
     return case
 
 
+def nested_case(keys, tree, style, **kw):
+    """make_bibliography driven by an .aux file with nested \\@input files; the explicit call gets the citations in in-place order"""
+    return _base(keys, flatten_tree(tree), style, family='nested-aux', aux_tree=tree, **kw)
+
+
+def gen_nested(rng, styles):
+    """a random .aux tree of depth 1-2 over 3-8 keys: citations in front of, inside and BEHIND every \\@input line"""
+    pool = [k for k in ORDER if k not in ('proc', 'inproc1', 'inproc2')]
+    keys = rng.sample(pool, rng.randint(3, 8))
+    cited = list(keys)
+    rng.shuffle(cited)
+    if rng.random() < 0.3:
+        cited = cited[:-1]
+
+    def split(items, depth):
+        """cut the items into a tree: some runs of items become nested files"""
+        if len(items) < 2 or depth == 0:
+            return list(items)
+        out, i = [], 0
+        while i < len(items):
+            if rng.random() < 0.45 and (out or True):
+                n = rng.randint(1, max(1, min(3, len(items) - i - (0 if out else 1))))
+                out.append(split(items[i:i + n], depth - 1))
+                i += n
+            else:
+                out.append(items[i])
+                i += 1
+        return out
+    tree = split(cited, 2)
+    if not any(isinstance(t, list) for t in tree):
+        tree = [tree[0], list(tree[1:-1]) or [tree[-1]]] + ([tree[-1]] if len(tree) > 2 else [])
+    db = list(keys)
+    rng.shuffle(db)
+    case = nested_case(db, tree, rng.choice(styles), mc=rng.choice([1, 2]), cli=rng.random() < 0.3)
+    if rng.random() < 0.3:
+        case['view'] = 'files'
+    return case
+
+
 def mini_cases(rng, n_random):
     cases = []
     dbs = [(['knuth84', 'art1', 'misc1'], ['misc1', 'knuth84', 'art1']), (['tieq', 'tiea', 'art2'], ['tieq', 'art2', 'tiea']),
            (['inproc1', 'inproc2', 'proc'], ['inproc2', 'inproc1'])]
-    for st in ('mini_keys', 'mini_sorted', 'mini_revkey', 'mini_twosorts', 'mini_syntax'):
+    for st in ('mini_keys', 'mini_sorted', 'mini_revkey', 'mini_twosorts', 'mini_syntax', 'mini_entryvars'):
         for keys, cites in dbs:
             for c in (cites, list(reversed(cites)), ['*']):
                 cases.append(_base(keys, c, st, 1, family='mini', entry='string',
                                    variant_noise=[[1, 0]] if '*' not in c and st != 'mini_syntax' else None))
     # where and when the files are opened / the script is parsed
-    for st in ('mini_noread', 'mini_raise', 'mini_raise_syntax', 'mini_keys', 'mini_syntax'):
+    for st in ('mini_noread', 'mini_raise', 'mini_raise_syntax', 'mini_keys', 'mini_syntax', 'mini_redeclare'):
         for missing in (False, True):
             for view in ('aux', 'files'):
                 cases.append(_base(['knuth84', 'art1'], ['art1', 'knuth84'], st, family='mini', missing_bib=missing, view=view))
@@ -846,11 +1201,57 @@ def mini_cases(rng, n_random):
     return cases
 
 
+AUX_NAMES = [  # (name of the top .aux file, what the command line is given) - the command line must find that file
+    ('doc.aux', 'doc'), ('doc.aux', 'doc.aux'), ('my.doc.aux', 'my.doc'), ('my.doc.aux', 'my.doc.aux'), ('sub.d/doc.aux', 'sub.d/doc'),
+    ('sub.d/.aux', 'sub.d/'), ('.hid.aux', '.hid'), ('x.aux.aux', 'x.aux.aux'), ('..aux', '.'), ('doc.tex.aux', 'doc.tex'),
+    ('noext', None), ('doc.tex', None), ('sub.d/noext', None), ('.aux', None), ('t.aux.aux', None)]
+
+
+def fn_cases(rng, quick):
+    """function-level families: os.path.splitext / the command line's .aux name, the output side of format_from_files, PybtexCommandLine.run"""
+    import itertools
+    cases = []
+    for n in range(0, 6 if quick else 7):
+        for t in itertools.product('a./', repeat=n):
+            cases.append({'op': 'c06_splitext', 'p': ''.join(t)})
+    alphabet = ['a', 'b', '.', '.', '/', 'aux', '.aux', 'é', '\u212a', ' ', '..', 'x.y', '\\', '-']
+    for _ in range(150 if quick else 2000):
+        cases.append({'op': 'c06_splitext', 'p': ''.join(rng.choice(alphabet) for _ in range(rng.randint(1, 7)))})
+    for name in [None, '', 'out', 'out.bbl', 'sub.d/out', '.bbl', 'o.x']:
+        for add in (False, True):
+            cases.append({'op': 'c06_target', 'output_filename': name, 'add_output_suffix': add, 'subdir': 'sub.d'})
+    # an error of the run comes before the TypeError of the output name
+    cases.append({'op': 'c06_target', 'output_filename': None, 'add_output_suffix': True, 'style': 'nosuchstyle'})
+    encs = [None, '', 'latin-1', 'utf-8']
+    for lang in ('bibtex', 'python', 'perl', 'BibTeX', ''):
+        for _ in range(6 if quick else 40):
+            opts = {k: rng.choice(encs) for k in ('bib_encoding', 'bst_encoding', 'output_encoding') if rng.random() < 0.7}
+            for k in PYTHONIC:
+                if rng.random() < 0.2:
+                    opts[k] = rng.choice(['x', '', True])
+            cases.append({'op': 'c06_clirun', 'filename': rng.choice(['doc', 'doc.aux', 'a.b/c', '']), 'style_language': lang,
+                          'encoding': rng.choice(encs), 'options': sorted(opts.items())})
+    for k in PYTHONIC:
+        for lang in ('bibtex', 'python'):
+            cases.append({'op': 'c06_clirun', 'filename': 'doc', 'style_language': lang, 'encoding': None, 'options': [[k, 'v']]})
+    cases.append({'op': 'c06_clirun', 'filename': 'doc', 'style_language': 'bibtex', 'encoding': None,
+                  'options': [[PYTHONIC[3], 'v'], [PYTHONIC[1], 'v']]})
+    return cases
+
+
 def gen_cases(tier, rng, info):
     quick = tier == 'quick'
     _root()
     styles = STYLES_QUICK if quick else STYLES_ALL
-    cases = []
+    cases = fn_cases(rng, quick)
+    n_fn = len(cases)
+    # the name of the .aux file: which file the command line opens, where make_bibliography writes
+    for aux, cli in AUX_NAMES:
+        for st in ('unsrt', 'mini_keys') if quick else ('unsrt', 'plain', 'mini_keys'):
+            c = _base(['knuth84', 'art1'], ['art1', 'knuth84'], st, family='paths', aux_name=aux, cli=cli is not None)
+            if cli is not None:
+                c['cli_name'] = cli
+            cases.append(c)
     # small exhaustive part: every pair of entries x every citation list over them x style
     pairs = [('knuth84', 'art1'), ('inproc1', 'proc'), ('art2', 'tech1')]
     for a, b in pairs:
@@ -875,6 +1276,19 @@ def gen_cases(tier, rng, info):
     # encodings: non-ASCII text written and read back with an 8-bit encoding
     for st in styles:
         cases.append(_base(['uni1', 'art1'], ['uni1', 'art1'], st, enc='latin-1'))
+    # .aux files that \\@input other .aux files (LaTeX writes one per \\include): the citations are merged IN PLACE
+    five = ['knuth84', 'art1', 'misc1', 'tech1', 'phd1']
+    for st in ['unsrt', 'plain', 'mini_keys'] + ([] if quick else ['alpha', 'mini_sorted']):
+        # alpha / \\@input{ch1}: (beta / \\@input{ch1a}: (gamma) / delta) / omega, with the data base in another order
+        cases.append(nested_case(five[::-1], [five[0], [five[1], [five[2]], five[3]], five[4]], st, cli=True))
+        cases.append(nested_case(five, [[five[4], five[3]], five[0]], st))
+        cases.append(nested_case(five, [five[2], [five[1]], [five[0]], five[3]], st))
+        cases.append(nested_case(five, [[[five[3]], five[1]], five[2]], st, view='files'))
+    # degenerate .aux files: a second \\bibstyle / \\bibdata is reported and ignored (same output as the explicit call), a missing
+    # one is the fatal error of the run
+    for extra in ('dup_style', 'dup_data', 'no_style', 'no_data'):
+        for st in ('unsrt', 'plain'):
+            cases.append(_base(['knuth84', 'art1'], ['art1', 'knuth84'], st, family='aux-errors', aux_extra=extra, cli=extra.startswith('dup')))
     mini = mini_cases(rng, 25 if quick else 300)
     cases += mini
     info['exhaustive'] = False
@@ -883,6 +1297,8 @@ def gen_cases(tier, rng, info):
         rnd.append(gen_ties(rng, [s for s in styles if s != 'unsrt_mixed']))
     for _ in range(230 if quick else 3200):
         rnd.append(gen_case(rng, styles))
+    for _ in range(24 if quick else 300):
+        rnd.append(gen_nested(rng, ['unsrt', 'plain', 'mini_keys'] if quick else ['unsrt', 'plain', 'alpha', 'mini_keys', 'mini_sorted']))
     if not quick:
         # the large styles shipped in tests/data (two or three SORTs, REVERSE passes): random databases, ties and label collisions
         # (a run costs ten times a standard style's: spread evenly over the stream so that the worker pool stays balanced)
@@ -899,7 +1315,7 @@ def gen_cases(tier, rng, info):
     for st in styles:
         for sp in (1, 2):
             cases.append(_base(['art1', 'knuth84', 'misc1'], ['*'], st, split=sp, entry='string', view='string' if sp == 1 else 'aux'))
-    _prefetch(cases)
+    _prefetch(cases[n_fn:])
     n_sys = len(cases) - len(rnd)
     info['scope'] = '%d systematic cases (pairs x citation lists x styles, tie / label-collision permutations, miniature styles, overrides, ' \
                     'encodings) + seeded random databases from a pool of %d entries' % (n_sys, len(POOL))
@@ -926,7 +1342,15 @@ LEVEL_TEXT = ('Machine-checked proofs (Lean 4) over an executable model of Engin
               'starting with \\bibitem{k} (each block BEGINS with it; the rest of a block is unconstrained).  Tied to the code by a byte-for-byte correspondence check of the model against the real engine on '
               'the shipped styles (unsrt, plain, alpha; thorough: unsrt_mixed, IEEEtran, jurabib, apacite) and generated miniature styles '
               'through every entry point with all override combinations, plus metamorphic checks and a sorted-order clause (reference sort '
-              'keys from the model) on the implementation.')
+              'keys from the model) on the implementation.  (4) where things are read and written: os.path.splitext refines its specification '
+              "(root + ext = path, shape of ext, leading dots never an extension; complete for an appended extension), the command line's "
+              '.aux name is idempotent and pybtex b = pybtex b.aux = make_bibliography(b.aux) (last component of b not only dots), '
+              'make_bibliography writes the text of the run to splitext(aux)[0] + .bbl and never returns it, the explicit call returns or '
+              'writes THE SAME text, PybtexCommandLine.run\'s usage errors and encoding defaults; tied by function-level correspondence '
+              '(real os.path.splitext, real run(), real format_from_files with every output_filename / add_output_suffix combination) and by '
+              'locating the file each real run writes; the literals (.aux, aux, bst, .bbl, .bib, style languages, the Pythonic-option '
+              'table, signature defaults, command_* method names) are regenerated from the source on every run (Gen/EngineConsts.lean) and '
+              'proved equal to what Model/Engine.lean hard-codes (C06_model_literals).')
 LEVEL_NOTE = ('Trusted: Lean kernel; axioms propext/Classical.choice/Quot.sound only; the hand-written model corresponds to the code only as '
               'far as the differential check explores.  The step from "the two .bib files differ only in uncited, unreferenced entries or in '
               'order" to "the READ steps resolve the same citations on agreeing databases" is proved for a bib_format '
